@@ -152,6 +152,7 @@ def denoted(out, ctx, front, rnd, work):
     import re
     n = 60 if ctx.tier == "quick" else 600
     checked = 0
+    todo = []
     for i in range(n):
         k = rnd.randint(2, 5)
         items = []
@@ -169,11 +170,26 @@ def denoted(out, ctx, front, rnd, work):
                 items.append(("range", a, b))
         pr = gen.Printer(random.Random(rnd.random()), fancy=True)
         text = "@export @no_skip_ws R = " + " ".join(pr.expr(it) for it in items) + " 'end' 'end';\n"
-        path = os.path.join(work, "den%d.ebnf" % i)
+        todo.append((i, items, text))
+    # the ends of the encoding ranges and of the surrogate gap, in every escape form that can spell them
+    for b in (0x01, 0x7F, 0x80, 0xFF, 0x100, 0x7FF, 0x800, 0xD7FF, 0xE000, 0xFFFD, 0xFFFF, 0x10000, 0x10FFFF):
+        forms = ["\\U00%06X" % b, "\\u{%x}" % b, "\\u{%06X}" % b]
+        if b < 0x100:
+            forms += ["\\x%02x" % b, "\\x%02X" % b]
+        if b < 0x10000:
+            forms += ["\\u%04x" % b, "\\u%04X" % b]
+        if b > 0x20:
+            forms.append(chr(b))
+        for fi, f in enumerate(forms):
+            items = [("lit", chr(b), False), ("lit", chr(b) + "x", False), ("range", chr(b), chr(b)), ("range", "\x00", chr(b))]
+            text = "@export @no_skip_ws R = '%s' \"%sx\" '%s'..'%s' '\\x00'..'%s' 'end' 'end';\n" % (f, f, f, f, f)
+            todo.append(("b%x_%d" % (b, fi), items, text))
+    for (i, items, text) in todo:
+        path = os.path.join(work, "den%s.ebnf" % i)
         open(path, "w", encoding="utf-8", newline="").write(text)
         o = subprocess.run([front, "gen", path], stdout=subprocess.PIPE, stderr=subprocess.PIPE, text=True, timeout=60)
         if not o.stdout.startswith("CODE\n"):
-            out.violation("c12denote-reject:%d" % i, "a grammar of literals and ranges that follows the syntax reference was rejected: " + (o.stdout + o.stderr)[:160],
+            out.violation("c12denote-reject:%s" % i, "a grammar of literals and ranges that follows the syntax reference was rejected: " + (o.stdout + o.stderr)[:160],
                           {"text": text})
             continue
         STR = r'"(?:[^"\\]|\\.)*"'
@@ -196,7 +212,7 @@ def denoted(out, ctx, front, rnd, work):
         checked += len(want)
         if got != want:
             bad = [(g, w) for g, w in zip(got, want) if g != w][:2]
-            out.violation("c12denote:%d" % i, "a literal/range does not denote the documented characters in the generated parser: got %r, documented %r" % (bad[0] if bad else (got, want)),
+            out.violation("c12denote:%s" % i, "a literal/range does not denote the documented characters in the generated parser: got %r, documented %r" % (bad[0] if bad else (got, want)),
                           {"text": text, "generated_calls": repr(got), "documented": repr(want)})
     return checked
 
